@@ -78,6 +78,13 @@ func cmdNegotiate(args []string) int {
 		sc := &Schedule{Pol: map[string]int{"A": pr.a, "B": pr.b}, Ver: map[string]int{"A": va, "B": vb}, Fam: "nego"}
 		w := newWorld(sc, *seed*9973+uint64(pr.a*64+pr.b)*131+uint64(k), of)
 		textGen(w)
+		// the human-readable text after the query tag is free: it may contain digits and question marks
+		switch (pr.a + pr.b + k) % 3 {
+		case 1:
+			w.P["A"].Conv.SetFriendlyQueryMessage("do you speak OTR 2 or 3? see v23?")
+		case 2:
+			w.P["B"].Conv.SetFriendlyQueryMessage("4?")
+		}
 		return w
 	}
 	fin := func(w *world.World) {
